@@ -11,7 +11,7 @@ echo >> $OUT
 echo "| seed | check | verdict | first violation |" >> $OUT
 echo "|---|---|---|---|" >> $OUT
 for d in /verif/seeded/C*/; do
-  N=$(basename $d); C=${N%b}
+  N=$(basename $d); C=${N:0:3}
   L=$(SEED_REPO=$R /verif/tools/seedtest.sh $N $C $T | head -1)
   RC=$(echo "$L" | sed -n 's/.* exit=\([0-9]*\) .*/\1/p')
   V=MISSED; [ "$RC" = "1" ] && V=DETECTED; [ "$RC" = "2" ] && V=HARNESS-ERROR
